@@ -86,7 +86,8 @@ def dense_case(draw, tier="quick", kinds=("int", "float"), **shape_kw):
     n = prod(shape)
     pattern = draw(st.sampled_from(["none", "one", "some", "all"]))
     data = _pattern_values(draw, n, pattern, vkind)
-    return dict(shape=shape, data=data, vkind=vkind, pattern=pattern)
+    prov = draw(st.sampled_from(["ctor", "ctor", "grown"]))
+    return dict(shape=shape, data=data, vkind=vkind, pattern=pattern, prov=prov)
 
 
 def _pattern_values(draw, n, pattern, vkind):
@@ -115,7 +116,48 @@ def arr_F(shape: Sequence[int], data: Sequence[float]) -> np.ndarray:
 
 
 def build_tensor(case) -> ttb.tensor:
-    return ttb.tensor(arr_F(case["shape"], case["data"]).copy(order="F"), tuple(case["shape"]))
+    """Dense tensor for a case dict.  ``case["prov"]`` (provenance) selects how the object comes into being:
+
+    * absent / "ctor": the constructor (data always F-contiguous);
+    * "grown": the same tensor reached through the documented growth path - construct it without the last index of one
+      mode, then assign the missing slab by subscripts, which enlarges the tensor.  Growth leaves the object in a state
+      no constructor produces (pyttb allocates the enlarged buffer in C order), and every operation must still treat
+      it as the same tensor.  The state is produced through the public API only, never by poking attributes.
+    """
+    A = arr_F(case["shape"], case["data"])
+    T = None
+    if case.get("prov") == "grown":
+        T = _grow_into(A)
+    if T is None:
+        T = ttb.tensor(A.copy(order="F"), tuple(case["shape"]))
+    return T
+
+
+def _grow_into(A: np.ndarray):
+    """tensor equal to A built by growing a smaller tensor; None when no mode can be shortened or growth misbehaves
+    (growth itself is judged by C04; users of this helper only need an object in the grown state)."""
+    shape = A.shape
+    cand = [m for m, s in enumerate(shape) if s >= 2]
+    if not cand or A.size == 0:
+        return None
+    m = cand[-1]
+    small = np.take(A, range(shape[m] - 1), axis=m)
+    try:
+        T = ttb.tensor(small.copy(order="F"), small.shape)
+        subs = np.array([s for s in itertools.product(*[range(n) for n in shape]) if s[m] == shape[m] - 1], dtype=int)
+        vals = np.array([A[tuple(s)] for s in subs], dtype=float)
+        T[subs] = vals
+    except Exception:  # noqa: BLE001
+        return None
+    if tuple(int(x) for x in T.shape) != shape or not np.array_equal(np.asarray(T.data), A):
+        return None
+    return T
+
+
+def is_grown(T) -> bool:
+    """label helper: True when the data buffer is not F-contiguous (the state growth leaves behind)"""
+    d = np.asarray(T.data)
+    return d.ndim >= 2 and not d.flags["F_CONTIGUOUS"]
 
 
 # --------------------------------------------------------------------------
